@@ -148,10 +148,15 @@ def compare(out, spec, ref, c):
     fbs = c.feedbacks
     if set(fbs) != set(ref.feedbacks):
         out.fail('feedbacks/keys', f'{sorted(set(fbs) ^ set(ref.feedbacks))}')
-    for v, consumer in fbs.items():
-        if v in ref.feedbacks and ref.trim(consumer, 2) not in ref.feedbacks[v]:
-            out.fail('feedbacks/consumer', f'{v} -> {consumer}, declared by '
-                     f'{sorted(ref.feedbacks[v])}')
+    for v, consumers in fbs.items():
+        # every algorithm that declares the value in feedback(), no other
+        # (the map holds names of values of the consuming algorithms)
+        if isinstance(consumers, str):
+            consumers = {consumers}
+        got = {ref.trim(c, 2) for c in consumers}
+        if v in ref.feedbacks and got != ref.feedbacks[v]:
+            out.fail('feedbacks/consumer', f'{v} -> {sorted(got)}, declared '
+                     f'by {sorted(ref.feedbacks[v])}')
 
 
 def classify(out, spec, ref):
